@@ -24,8 +24,10 @@ enum Kind {
     /// a type error followed, inside the same document, by a syntax error
     TypeThenSyntaxError,
     NestedValid,
+    /// a bare enum variant name (valid for the enum target, a string for the untyped one)
+    EnumName,
 }
-const KINDS: [Kind; 14] = [
+const KINDS: [Kind; 15] = [
     Kind::Mapping,
     Kind::Sequence,
     Kind::Scalar,
@@ -40,6 +42,7 @@ const KINDS: [Kind; 14] = [
     Kind::UnterminatedFlow,
     Kind::TypeThenSyntaxError,
     Kind::NestedValid,
+    Kind::EnumName,
 ];
 
 #[derive(Clone, Debug, Serialize, Deserialize, PartialEq, Eq, Hash)]
@@ -55,6 +58,14 @@ enum Target {
     Untyped,
     /// BTreeMap<String, i64>
     IntMap,
+    /// enum Cmd { Start, Stop }: sequences / mappings are type errors raised on a peeked event
+    Cmd,
+}
+
+#[derive(Debug, Deserialize, PartialEq)]
+enum Cmd {
+    Start,
+    Stop,
 }
 
 #[derive(Clone, Debug, Serialize, Deserialize)]
@@ -82,6 +93,7 @@ impl Part {
             Kind::UnterminatedFlow => ["a: [1, 2\n", "{k: v\n"][v % 2],
             Kind::TypeThenSyntaxError => ["a: oops\nb: [1, 2\n", "a: [x]\nb: 'open\n"][v % 2],
             Kind::NestedValid => ["a: 1\nb: 2\nc: 3\n", "m: 1\n"][v % 2],
+            Kind::EnumName => ["Start\n", "Stop\n"][v % 2],
         }
     }
     fn has_syntax_error(&self) -> bool {
@@ -277,7 +289,7 @@ impl Property for C11 {
     const ID: &'static str = "C11";
     type Case = Case;
     fn rule() -> String {
-        "cases = sequences over 14 document kinds (mapping, sequence, scalar, empty, explicit null, comment-only, defines an anchor, aliases an anchor of an earlier document, type error early, type error late inside nesting, syntax error, unterminated flow, type error followed by a syntax error, another valid mapping), 2-3 concrete texts per kind, with/without `...` end markers and trailing comments, LF/CRLF; all sequences of length <= 3 (thorough: <= 4) and random ones up to length 8; targets: untyped tree and BTreeMap<String,i64> (for which several kinds are type errors). Oracle: a model built from parsing each part alone with from_str: batch = Err if a part fails else the list of the non-empty parts; iterator = Ok / Err per part, continuing after a type-level error and ending after a part that contains a syntax error, never more than len+2 items, equal to batch when nothing fails; single-document entry points reject a stream whose later part has content. Non-trivial: >= 2 parts one of which is an error or anchor-related kind.".into()
+        "cases = sequences over 15 document kinds (mapping, sequence, scalar, empty, explicit null, comment-only, defines an anchor, aliases an anchor of an earlier document, type error early, type error late inside nesting, syntax error, unterminated flow, type error followed by a syntax error, another valid mapping, a bare enum variant name), 2-3 concrete texts per kind, with/without `...` end markers and trailing comments, LF/CRLF; all sequences of length <= 3 (thorough: <= 4) and random ones up to length 8; targets: untyped tree, BTreeMap<String,i64> and a unit-variant enum (for which several kinds are type errors, some raised on a peeked event). Oracle: a model built from parsing each part alone with from_str: batch = Err if a part fails else the list of the non-empty parts; iterator = Ok / Err per part, continuing after a type-level error and ending after a part that contains a syntax error, never more than len+2 items, equal to batch when nothing fails; single-document entry points reject a stream whose later part has content. Non-trivial: >= 2 parts one of which is an error or anchor-related kind.".into()
     }
     fn assumptions() -> Vec<String> {
         vec![
@@ -289,6 +301,7 @@ impl Property for C11 {
         match c.target {
             Target::Untyped => check_typed::<U>(c),
             Target::IntMap => check_typed::<BTreeMap<String, i64>>(c),
+            Target::Cmd => check_typed::<Cmd>(c),
         }
     }
     fn shrink(c: &Case) -> Vec<Case> {
@@ -330,7 +343,7 @@ impl Property for C11 {
                     let salt = code * 7 + j * 3;
                     parts.push(Part { kind: k, variant: (salt % 3) as u8, end_marker: salt % 4 == 1, trailing_comment: salt % 5 == 2 });
                 }
-                for target in [Target::Untyped, Target::IntMap] {
+                for target in [Target::Untyped, Target::IntMap, Target::Cmd] {
                     idx += 1;
                     total += 1;
                     if ctx.mine(idx) {
@@ -346,13 +359,13 @@ impl Property for C11 {
                 }
             }
         }
-        ctx.subspace(&format!("all sequences of length <= {maxlen} over 14 document kinds x 2 targets"), total, true);
+        ctx.subspace(&format!("all sequences of length <= {maxlen} over 15 document kinds x 3 targets"), total, true);
 
         let part = (prop::sample::select(KINDS.to_vec()), 0u8..3, any::<bool>(), any::<bool>()).prop_map(|(kind, variant, e, t)| Part { kind, variant, end_marker: e, trailing_comment: t });
         // bias towards valid kinds so that long streams survive
-        let good_part = (prop::sample::select(vec![Kind::Mapping, Kind::NestedValid, Kind::Empty, Kind::ExplicitNull, Kind::CommentOnly, Kind::DefinesAnchor, Kind::TypeErrorEarly, Kind::TypeErrorLate, Kind::Sequence, Kind::Scalar]), 0u8..3, any::<bool>(), any::<bool>())
+        let good_part = (prop::sample::select(vec![Kind::Mapping, Kind::NestedValid, Kind::Empty, Kind::ExplicitNull, Kind::CommentOnly, Kind::DefinesAnchor, Kind::TypeErrorEarly, Kind::TypeErrorLate, Kind::Sequence, Kind::Scalar, Kind::EnumName, Kind::EnumName]), 0u8..3, any::<bool>(), any::<bool>())
             .prop_map(|(kind, variant, e, t)| Part { kind, variant, end_marker: e, trailing_comment: t });
-        let strat = (prop::collection::vec(prop_oneof![3 => good_part, 1 => part], 1..9), prop::sample::select(vec![Target::Untyped, Target::IntMap]), any::<bool>())
+        let strat = (prop::collection::vec(prop_oneof![3 => good_part, 1 => part], 1..9), prop::sample::select(vec![Target::Untyped, Target::IntMap, Target::Cmd]), any::<bool>())
             .prop_map(|(parts, target, crlf)| Case { parts, target, crlf });
         ctx.run_strategy("random-long", 1, ctx.tier.pick(30_000, 400_000), &strat, nontrivial);
     }
